@@ -89,4 +89,32 @@ theorem mu_hold_step (p : Params K) (t : Tid) (g : G K V) (l : L K V) (c : Choic
     | (left; rcases hP with h | h | h <;> rw [h] <;> rfl)
     | simp_all [holdsMu, muMeasure]
 
+/-! ### the `resizing` flag -/
+
+/-- how many more of its own steps the resizer needs, at most, before it lowers the flag: three per root bucket still to
+copy, one per counter stripe still to sum, and a constant -/
+def flagMeasure (p : Params K) (g : G K V) (l : L K V) : Nat :=
+  match l.pc with
+  | .rzLoadTable => 3 * (g.tables g.cur).len + p.stripes (g.tables g.cur).len + 9
+  | .rzDecide => 3 * (g.tables l.rtbl).len + p.stripes (g.tables l.rtbl).len + 8
+  | .rzDecideSum => 3 * (g.tables l.rtbl).len + (p.stripes (g.tables l.rtbl).len - l.si) + 7
+  | .rzCopyLock => 3 * ((g.tables l.rtbl).len - l.ci) + 5
+  | .rzCopyDo => 3 * ((g.tables l.rtbl).len - l.ci - 1) + 7
+  | .rzCopyUnlock => 3 * ((g.tables l.rtbl).len - l.ci - 1) + 6
+  | .rzPublish => 4
+  | .rzMuLock => 3
+  | .rzClearFlag => 2
+  | _ => 0
+
+/-- each step of the resizer lowers the flag or decreases the measure (the lengths of allocated tables do not change).
+The resizer can be blocked only at `rzCopyLock` (a bucket lock: `hold_step`) and at `rzMuLock` (`mu_hold_step`). -/
+theorem flag_hold_step (p : Params K) (t : Tid) (g : G K V) (l : L K V) (c : Choice K V) (g' : G K V) (l' : L K V)
+    (hr : isResizer l.pc = true) (hs : tstep p t g l c = some (g', l'))
+    (hlen : (g'.tables l.rtbl).len = (g.tables l.rtbl).len) (hcur : (g'.tables g.cur).len = (g.tables g.cur).len) :
+    isResizer l'.pc = false ∨ (isResizer l'.pc = true ∧ flagMeasure p g' l' < flagMeasure p g l) := by
+  cases hpc : l.pc <;> simp only [isResizer, hpc, reduceCtorEq] at hr <;>
+    simp only [tstep, hpc] at hs <;> (repeat' split at hs) <;>
+    simp only [Option.some.injEq, reduceCtorEq, Prod.mk.injEq] at hs <;> obtain ⟨rfl, rfl⟩ := hs <;>
+    simp_all [isResizer, flagMeasure] <;> omega
+
 end Proofs.ProtoHold
